@@ -269,7 +269,52 @@ def r5_state_layout(repo: Repo, rep):
         rep.undecided(R, "src/torchphysics", "package", "registration calls", "none found")
 
 
+RESTORE_HOOKS = ("load_state_dict", "_load_from_state_dict", "on_load_checkpoint", "on_save_checkpoint", "state_dict", "__setstate__", "__getstate__")
+
+
+def r6_restore_path(repo: Repo, rep):
+    R = rep.rule("R-C19-6", "modules of the package leave Lightning's restore path alone: checkpoint hooks remove nothing from the checkpoint, and a load_state_dict override "
+                 "copies into the existing tensors (no assign=True)", floor=15,
+                 why="dropping `loops` restarts the step count at 0; assigned tensors are new objects: Parameter wrappers and optimizer references keep pointing at the old ones")
+    mods = [m for name, m in repo.modules.items() if name.split(".")[-1] in ("solver", "condition", "deeponet_condition", "callbacks", "parameter", "model")]
+    seen = 0
+    for m in mods:
+        for ci in m.classes.values():
+            hooks = [fi for n, fi in ci.methods.items() if n in RESTORE_HOOKS]
+            if not hooks:
+                seen += 1
+                rep.ok(R, ci.module.relpath, ci.fq, "no override of the checkpoint / state-dict protocol", "-")
+                continue
+            for fi in hooks:
+                seen += 1
+                rep.saw(fi)
+                params = fi.params[1:]
+                bad = []
+                for n in ast.walk(fi.node):
+                    if isinstance(n, ast.Call) and isinstance(n.func, ast.Attribute) and n.func.attr in ("pop", "popitem", "clear") and isinstance(n.func.value, ast.Name) and n.func.value.id in params:
+                        bad.append(dump(n)[:60])
+                    if isinstance(n, ast.Delete):
+                        for t in n.targets:
+                            if isinstance(t, ast.Subscript) and isinstance(t.value, ast.Name) and t.value.id in params:
+                                bad.append(dump(n)[:60])
+                    if isinstance(n, ast.Call) and isinstance(n.func, ast.Attribute) and n.func.attr == "load_state_dict":
+                        a = kwarg(n, "assign", 2)
+                        if a is not None and not (isinstance(a, ast.Constant) and a.value is False) and not (isinstance(a, ast.Name) and a.id in params):
+                            bad.append(f"load_state_dict(.., assign={dump(a)})")
+                if fi.name == "load_state_dict":
+                    a = fi.node.args
+                    names = [x.arg for x in a.args]
+                    if "assign" in names:
+                        i = names.index("assign") - (len(names) - len(a.defaults))
+                        if i >= 0 and isinstance(a.defaults[i], ast.Constant) and a.defaults[i].value is True:
+                            bad.append("assign defaults to True")
+                rep.check(R, not bad, fi.site(), fi.fq, "the restore protocol is passed through unchanged", str(sorted(set(bad))[:3]), str(sorted(set(bad))[:3]))
+    if seen == 0:
+        rep.undecided(R, "src/torchphysics", "package", "classes of the solver / condition modules", "none found")
+
+
 def run(repo: Repo, rep):
+    r6_restore_path(repo, rep)
     r5_state_layout(repo, rep)
     r1_registration(repo, rep)
     r2_callbacks(repo, rep)
